@@ -31,7 +31,7 @@ add(
     "Generated order sequences (grid containing interface values, jumps over the region, constructive multi-excursion paths) "
     "are weighed by wirefence_weight_and_pick / compute_weight / calc_cv_vector / high_acc_swap and compared with a reference "
     "written from the statement; time-reversal metamorphic relation; selection law checked exactly over a grid of scripted draws; frames 1 ulp / 1e-9 / 3e-8 "
-    "from an interface; the weight-vector and swap parts also run the same system translated along the order-parameter axis (cap, interfaces, lambda_-1 on 0.0). Sampled.",
+    "from an interface; the weight-vector and swap parts also run the same system translated along the order-parameter axis (cap, interfaces, lambda_-1 on 0.0). Part `moves`: paths as wire_fencing hands them back through run_md (pasted, reversed, extended in place) carry the weight vector of their frames. Sampled.",
     "compute_weight doubling only claimed for end points strictly outside the outer interfaces; ties u == cum/n accept either segment.",
 )
 add(
@@ -59,7 +59,7 @@ add(
 HIST = ("Histories are generated as plain data (lattice plug-in engine configuration: 2-7 interfaces, sh/wf moves, cap, 1..n-1 workers, "
         "single- and multi-engine layouts, delete_old, seeds, zero-swap probability; 1-3 process lifetimes with generated completion orders, "
         "clean stops and kills; restarted lifetimes may ask for fewer additional steps than workers and may run on another worker count; lambda_-1 variant of [0-], "
-        "translated copies of the system with the cap / lambda_0 / lambda_-1 on 0.0, companion files kept via keep_traj_fnames, QuanTIS zero swaps, screen / pattern reporting options) and executed by the real scheduler()/REPEX_state/run_md/PathStorage in forked children behind a "
+        "translated copies of the system with the cap / lambda_0 / lambda_-1 on 0.0, companion files kept via keep_traj_fnames, QuanTIS zero swaps, screen / pattern reporting options; a restarted lifetime may die before its first result; an unrelated simulation may have run earlier in the same interpreter; the runner may serialise a submitted job only when the scheduler next talks to it - the latest point the real runner allows) and executed by the real scheduler()/REPEX_state/run_md/PathStorage in forked children behind a "
         "deterministic runner that owns the completion order; a reference model kept by the harness is compared after every event. Sampled. ")
 ENUM = ("In addition small systems (3-5 ensembles, 1-3 workers, sh-only / wf / zero-swap move sets) are explored exhaustively in memory: every "
         "scheduler draw (scripted rgen.choice/random), every completion order and every synthesised move outcome (reject / accept with each "
@@ -116,7 +116,7 @@ add(
     "distinct from the scheduler's stream; global numpy/random generators untouched by every move. Differential: another completion order or "
     "other clean restart points give the same streams to the same job ordinal; another seed shares none. Engine-class part: the noise of TurtleMD's "
     "Langevin integrator (also with a stray user `seed` setting), of ASE's Langevin and the seed handed to the (fake) LAMMPS binary are functions of the job's "
-    "engine stream only: same stream => identical trajectory / seed, different stream => different. Sampled.",
+    "engine stream only: same stream => identical trajectory / seed, different stream => different; the stream reaches the engine as in a real run (a spawned child, pickled on its way to the worker). The job a worker receives is the job that was prepared and submitted (late hand-over). Sampled.",
     "A job in flight at a kill whose result was never consumed is 'the same job' when it is re-issued (recorded) or re-picked (last, unrecorded pick "
     "reproduced from the restored generator state). Velocity generation per engine class is C16's.",
 )
@@ -128,7 +128,7 @@ add(
     "extension steps..steps+W+2 and three completion-order policies is run through the real scheduler with a deterministic runner "
     "(thorough: full grid; quick: boundary subset): jobs issued = results consumed = requested moves per lifetime, step counter in the restart "
     "file, nothing left in flight / in the restart record / in the runner, a finished run restarted does nothing; restarts on fewer / more workers; "
-    "idle slots keep paths with non-zero weight after every step. (b) the real aiorunner "
+    "idle slots keep paths with non-zero weight after every step; restarted lifetimes that die before their first result, once or twice in a row, do not block the next restart. (b) the real aiorunner "
     "(asyncio thread + process pool) with generated task durations (ties), failing tasks, 1-4 workers and consumer lags: every unit executed "
     "exactly once, every result or exception delivered exactly once to its own future, stop() returns - also when everything is submitted at once and "
     "stop() is called with work still queued. (c) real scheduler+aiorunner "
@@ -145,7 +145,7 @@ add(
     "n_old/(n_new+-1) and their float neighbours). Shooting is compared with an exact reference (accept/reject and order sequence, rational "
     "arithmetic for the threshold); wire fencing and swaps with the ensemble-membership predicate, weight>0, trajectory-piece adjacency and "
     "frame-reference integrity; every rejection must leave the old path object, its frames and its files unchanged and run_md must keep it; the "
-    "shoot and wire-fencing parts also run translated copies of the system (exact: multiples of 1/2) that put lambda_-1, an interface or the cap on 0.0. Sampled.",
+    "shoot and wire-fencing parts also run translated copies of the system (exact: multiples of 1/2) that put lambda_-1, an interface or the cap on 0.0. Chain part: a shooting move from a path that a zero swap has just produced (swapped paths loaded / restarted / sampled) follows the n_old/n_new rule like any sampled path. Wire-fencing paths handed back through run_md carry exactly the weight vector of their frames (caps below other interfaces, mixed sh/wf ensembles). Sampled.",
     "Old paths have interior frames strictly inside the interfaces; a value exactly on an interface counts as outside for an end point and inside "
     "for an interior frame; at a float-rounding tie of n_old/xi either rounding is accepted; wire-fencing trajectories cannot jump over [lambda_i, cap).",
 )
@@ -167,7 +167,7 @@ add(
     "offset (TRR: every stride-th) is used as a partial write, plus multi-cut schedules slid over the file: the reader is polled as the "
     "engines poll it (ReadAndProcessOnTheFly per poll; GromacsRunner.get_gromacs_frames with a stub process whose poll() and the module sleep "
     "are owned by the harness, so no wall clock). Oracle: no exception, cumulative frames are a prefix of the written frames with exactly the "
-    "written values, never more than the frames whose data bytes are on disk, all frames within two polls after the writer finished. "
+    "written values, never more than the frames whose data bytes are on disk, all frames within two polls after the writer finished - also when the writer writes the rest of the file and exits between two looks of the reader (between its look at the file size and its look at the process). "
     "Exhaustive over single cuts of the generated files; files and multi-cut schedules are sampled. An atheris campaign (4000 / 150000 executions, "
     "-seed from VERIF_SEED, empty corpus, coverage of infretis' reader modules) decodes bytes into (format, trajectory, up to 8 cuts, idle polls) and applies the same oracle.",
     "The writer finishes normally (complete final file). No per-poll lower bound is demanded (the LAMMPS reader may spend a poll on a lone newline; callers tolerate it).",
@@ -177,7 +177,7 @@ add(
     "C16",
     "property-based testing (Hypothesis) of modify_velocities on five engine classes built from generated input directories + statistical tests with harness-side unit constants",
     "CP2K, LAMMPS, GROMACS (infretis_genvel), ASE and TurtleMD engines are constructed from generated inputs (atom counts, element masses incl. "
-    "integer-typed masses, positions, old velocities, temperatures, zero_momentum settings, stream seeds, ASE velocity-Verlet / Langevin with and without fixcm); "
+    "integer-typed masses, positions, old velocities, temperatures, zero_momentum settings, stream seeds, ASE velocity-Verlet / Langevin with and without fixcm, TurtleMD systems of one, two and three dimensions); "
     "before the statistics a second engine of the same class, temperature and size but other masses draws in the same process; modify_velocities is checked per call with "
     "independent readers of the written frame (positions/box/identities preserved, source frame byte-identical, zero momentum, kin_new = 1/2 sum m "
     "v^2 of the written velocities, dek, reproducible from the job stream only, global RNG untouched) and statistically (per atom mean 0 and "
@@ -192,7 +192,7 @@ add(
     "parsers (values filling the fixed-width fields, shuffled ids, non-zero lower box bounds, 3/9-component boxes, multi-frame files, frame k "
     "extraction, velocity reversal changes velocities only); TRR frames from an independent struct encoder decode exactly for 2 byte orders x "
     "2 precisions and identically across byte orders, also with velocity / force blocks in some frames only and triclinic boxes (all nine g96 BOX entries); "
-    "mdp / CP2K (incl. keywords repeated within a section) / LAMMPS template editors are compared with reference edit models "
+    "mdp / CP2K (incl. keywords repeated within a section and sibling sections with one and the same header) / LAMMPS template editors are compared with reference edit models "
     "(exactly the requested entries change; second application is a no-op; CP2K compared as unordered section trees). Sampled.",
     "Editors are driven with the engines' call patterns; velocities fit the 15-character g96 field with either sign; LAMMPS write_for_run consumes its variables, so idempotence means 'function of template and settings'.",
 )
@@ -213,7 +213,7 @@ add(
     "interfaces, lambda_-1 incl. 0, engine sections, quantis); invalid by the predicate => setup_config must raise TOMLConfigError (acceptance or any "
     "other exception is a violation); accepted => with constructed valid start paths setup_internal succeeds, diagonal weights non-zero, all first "
     "picks succeed, the [0-] ensemble is set up for the configured lambda_-1 (any value, 0.0 included), an explicit ensemble_engines layout is what the ensembles "
-    "and first picks use, a short run completes, and the restart file is a fixed point of setup_config's normalisation. Sampled.",
+    "and first picks use, a short run completes, the ensemble definitions do not change when another simulation (other interfaces, lambda_-1 toggled) is set up in the same interpreter, and the restart file is a fixed point of setup_config's normalisation. Sampled.",
     "A configuration valid by the statement may be rejected for reasons the statement does not list. Accepted quantis / lambda_-1 configurations are initialised but not run here (plug-in engine has no energies).",
 )
 
@@ -237,7 +237,7 @@ add(
     "0 bytes, a prefix, all but one byte), plus second crashes inside the recovery run and while the restart is being prepared (setup_config's repair of the data file). In fresh forks the restart must start and load every "
     "path with non-zero weight, re-issue the recorded in-flight jobs, continue to the requested steps keeping the per-step invariants of "
     "C04/C05/C14, list every replaced path exactly once in the data file and conserve the weights. Exhaustive over single crash points of the "
-    "chosen target steps; scenarios are sampled.",
+    "chosen target steps (incl. the step before the last of a multi-worker run, continued to the same step count: the jobs in flight then cover all steps that are left - every counted step must be a completed move); scenarios are sampled.",
     "Crash = process death (os._exit), not power loss: data not yet written by the process is lost, written data persists. Buffered writes are "
     "modelled as reaching the disk at close with an explicit generated prefix. Worker-side effects are not crash points.",
     category="fault_enumeration",
@@ -250,9 +250,9 @@ add(
     "behaviour script is generated: frames per flush, pauses, frames cut in the middle, slow SIGTERM, death with an exit code at frame m, "
     "per-frame varying box, the command being a launcher whose worker child does the writing; ASE and TurtleMD run in-process; the scripted plug-in through EngineBase.propagate. For generated start points "
     "(frame k of a multi-frame file, velocity-direction flag), order parameters (periodic Distance incl. > half a box, Velocity, Distancevel), "
-    "interfaces, subcycles, maxlen and direction: first frame = given point; stored order of every frame = order recomputed by the harness "
+    "interfaces, subcycles, maxlen and direction: first frame = given point (positions, velocities and the box of the start frame, which for GROMACS may differ from the box of the input configuration); stored order of every frame = order recomputed by the harness "
     "from the frame the path references (own box, own velocity direction); stop rule and success flag; external program gone afterwards; "
-    "non-zero exit or death by a signal raises RuntimeError instead of a truncated path; energies on the right frames; backward propagation retraces forward. "
+    "non-zero exit or death by a signal raises RuntimeError instead of a truncated path; energies on the right frames; backward propagation retraces forward; a second engine object of the same worker (pickled copy, same directory and ensemble name) writes other files and leaves the first path's files as they were. "
     "ASE and TurtleMD also with real forces (spring / Lennard-Jones): frame k of a run with s MD steps per frame equals MD step k*s of a run with one step per frame, and the backward run retraces. Sampled.",
     "Real MD programs are absent; fakes emit the documented formats. Wall-clock timing of the fakes is real: a verdict that is not reproduced on "
     "immediate re-execution is reported as ':timing-dependent'.",
